@@ -26,7 +26,9 @@ func init() {
 		"(R5) every function returning *strategy.Result reachable from the replica-set Reconcile returns, on every path, a non-nil Result whose NewStatus has been assigned a non-nil value, the role dispatcher's nil fall-through is infeasible because the role field only ever holds the dispatched constants, and Parameters.NewStatus is built from a non-nil value; "+
 		"(R6) ValidateExtendedDaemonSetSpec (with the validators it runs, directly or from a table) returns nil only on paths that refute each of the four documented rejection conditions, and each sentinel error is returned under its condition; "+
 		"(R7) the rejections are enforced on every reconcile: each API write reachable from the ExtendedDaemonSet Reconcile is — in its own function or, followed up through every call site, in a caller — dominated by the fact ValidateExtendedDaemonSetSpec(spec of the object) == nil, "+
-		"or by the non-nil result of a helper that returns the object only under that fact, the one exception being writes under !IsDefaultedExtendedDaemonSet (the defaulting update, which precedes validation by design).", runC16)
+		"or by the non-nil result of a helper that returns the object only under that fact, the one exception being writes under !IsDefaultedExtendedDaemonSet (the defaulting update, which precedes validation by design); "+
+		"(R8) no nil dereference across a call or past its own guard, in the code reachable from the four Reconcile methods: where a caller dereferences the pointer result of a repository function that also returns an error or a bool, every return path of that function compatible with what the caller established about those sibling results (err == nil, flag false, …) yields a non-nil pointer; "+
+		"and a block that is the direct target of the non-nil edge of a test `p != nil` and dereferences p has p != nil as a must-fact (the guard cannot be bypassed through a disjunction).", runC16)
 }
 
 func runC16(r *Run) {
@@ -35,6 +37,8 @@ func runC16(r *Run) {
 	r.RuleDoc("C16.R3", "optional spec pointer fields are dereferenced only under a nil guard or behind the IsDefaulted gate that requires them")
 	r.RuleDoc("C16.R4", "integer divisors are non-zero constants or carry a dominating positivity fact")
 	r.RuleDoc("C16.R5", "strategy results are non-nil with NewStatus assigned on every return path; the role dispatch is exhaustive")
+	r.RuleDoc("C16.R8", "a pointer result whose validity a sibling error/bool result conveys is non-nil on every return path compatible with what the dereferencing caller checked; a direct nil guard cannot be bypassed")
+	r.Floor("C16.R8", 6)
 	r.RuleDoc("C16.R7", "every API write of the ExtendedDaemonSet reconcile (the defaulting update aside) happens only after ValidateExtendedDaemonSetSpec accepted the reconciled object's spec")
 	r.Floor("C16.R7", 4)
 	r.RuleDoc("C16.R6", "validation returns nil only when each documented rejection condition is refuted; each sentinel error has its condition")
@@ -51,6 +55,7 @@ func runC16(r *Run) {
 	c16ParamDerefMemo = map[string]int{}
 	c16ValidationTable(r)
 	c16ValidationGate(r)
+	c16ResultContract(r)
 	c16Division(r)
 	c16DefiniteInit(r)
 	c16GuardedStores(r)
@@ -3702,5 +3707,346 @@ func c16ValidationGate(r *Run) {
 	}
 	if n == 0 {
 		r.Check("C16.R7", "writes", r.Prog.Pos(eds.Pos()), shortFunc(eds), "the reconcile performs API writes", false, "none found")
+	}
+}
+
+// ---------------------------------------------------------------------------------------------
+// R8 pointer results and their sibling results; direct nil guards
+
+func c16AllReconcileReach(r *Run) map[*ssa.Function]bool {
+	var roots []*ssa.Function
+	for _, fn := range reconcileEntries(r) {
+		roots = append(roots, fn)
+	}
+	return dReachable(r.Prog, roots...)
+}
+
+func c16IsPlainPtr(t types.Type) bool {
+	_, ok := t.Underlying().(*types.Pointer)
+	return ok
+}
+
+// c16SiblingKnown describes what a caller established about result #idx of a call.
+type c16SiblingKnown struct {
+	idx   int
+	isErr bool
+	val   bool // error: is nil ; bool: is true
+}
+
+func c16ResultContract(r *Run) {
+	reach := c16AllReconcileReach(r)
+	type gkey struct {
+		caller, callee *ssa.Function
+		idx            int
+	}
+	type group struct {
+		ok    bool
+		why   string
+		n     int
+		first ssa.Instruction
+	}
+	groups := map[gkey]*group{}
+	var order []gkey
+	for _, fn := range sortedFuncs(reach) {
+		if !r.Prog.IsRuleSite(fn) {
+			continue
+		}
+		ff := r.Prog.factsOf(fn)
+		for _, ci := range callsIn(fn) {
+			call, ok := ci.(*ssa.Call)
+			if !ok {
+				continue
+			}
+			callee := staticCallee(&call.Call)
+			if callee == nil || !r.Prog.IsRepoFunc(callee) || len(callee.Blocks) == 0 {
+				continue
+			}
+			res := callee.Signature.Results()
+			if res.Len() < 2 {
+				continue
+			}
+			hasSibling := false
+			for j := 0; j < res.Len(); j++ {
+				if c17IsErrType(res.At(j).Type()) {
+					hasSibling = true
+				}
+				if b, ok := res.At(j).Type().Underlying().(*types.Basic); ok && b.Kind() == types.Bool {
+					hasSibling = true
+				}
+			}
+			if !hasSibling {
+				continue
+			}
+			extracts := map[int]*ssa.Extract{}
+			for _, rf := range refs(call) {
+				if ex, ok := rf.(*ssa.Extract); ok {
+					extracts[ex.Index] = ex
+				}
+			}
+			for i := 0; i < res.Len(); i++ {
+				if !c16IsPlainPtr(res.At(i).Type()) || extracts[i] == nil {
+					continue
+				}
+				v := extracts[i]
+				for _, u := range c16DerefUses(r, v) {
+					b := u.instr.Block()
+					kk := ff.K.key(u.val)
+					if ff.At(b).has("("+kk+"==nil)", false) || ff.At(b).has("(nil=="+kk+")", false) {
+						continue // the caller checked the pointer itself
+					}
+					// what the caller knows about the sibling results here
+					var known []c16SiblingKnown
+					for j, ex := range extracts {
+						if j == i {
+							continue
+						}
+						for _, f := range ff.At(b) {
+							if c17IsErrType(ex.Type()) && isNilCompareOf(f.V, func(x ssa.Value) bool { return unwrap(x) == ssa.Value(ex) }) {
+								known = append(known, c16SiblingKnown{j, true, f.Pol})
+							}
+							if f.V == ssa.Value(ex) {
+								known = append(known, c16SiblingKnown{j, false, f.Pol})
+							}
+						}
+					}
+					gk := gkey{fn, callee, i}
+					g := groups[gk]
+					if g == nil {
+						g = &group{ok: true, first: u.instr}
+						groups[gk] = g
+						order = append(order, gk)
+					}
+					g.n++
+					ok2, why := c16CalleeYieldsNonNil(r, callee, i, known)
+					if !ok2 && g.ok {
+						g.ok, g.first = false, u.instr
+						g.why = fmt.Sprintf("%s at %s: %s", u.how, r.Prog.Pos(instrPos(u.instr)), why)
+					} else if ok2 && g.why == "" {
+						g.why = why
+					}
+				}
+			}
+		}
+	}
+	for _, gk := range order {
+		g := groups[gk]
+		detail := g.why
+		if g.ok {
+			detail = fmt.Sprintf("%d dereference(s); %s", g.n, g.why)
+		}
+		r.Check("C16.R8", fmt.Sprintf("result #%d of %s", gk.idx, shortFunc(gk.callee)), r.Prog.Pos(instrPos(g.first)), shortFunc(gk.caller),
+			"the pointer a repository function returns is non-nil on every return path compatible with the sibling results the caller checked before dereferencing it", g.ok, detail)
+	}
+	c16DirectGuards(r, reach)
+}
+
+// c16CalleeYieldsNonNil: on every return path of fn compatible with the known sibling results,
+// result #i is non-nil.
+func c16CalleeYieldsNonNil(r *Run, fn *ssa.Function, i int, known []c16SiblingKnown) (bool, string) {
+	return c16CalleeYieldsNonNilD(r, fn, i, known, 0)
+}
+
+func c16CalleeYieldsNonNilD(r *Run, fn *ssa.Function, i int, known []c16SiblingKnown, depth int) (bool, string) {
+	paths, _, ok := funcPaths(fn, 5000)
+	r.paths += len(paths)
+	if !ok {
+		return false, "path cap exceeded in " + shortFunc(fn)
+	}
+	n := 0
+	for _, p := range paths {
+		ret := returnOf(p.Blocks[len(p.Blocks)-1])
+		if i >= len(ret.Results) {
+			return false, "unexpected result count"
+		}
+		compatible := true
+		for _, kn := range known {
+			rv := unwrap(p.Resolve(ret.Results[kn.idx]))
+			if kn.isErr {
+				// is the returned error nil on this path?
+				isNil, decided := false, false
+				if c, isC := rv.(*ssa.Const); isC {
+					isNil, decided = c.IsNil(), true
+				} else if p.Has(true, func(v ssa.Value, _ string) bool {
+					return isNilCompareOf(v, func(x ssa.Value) bool { return unwrap(x) == rv })
+				}) {
+					isNil, decided = true, true
+				} else if p.Has(false, func(v ssa.Value, _ string) bool {
+					return isNilCompareOf(v, func(x ssa.Value) bool { return unwrap(x) == rv })
+				}) {
+					isNil, decided = false, true
+				} else if okn, _ := c16NonNil(r, rv, 0); okn {
+					isNil, decided = false, true
+				} else if c, isCall := rv.(*ssa.Call); isCall {
+					// error constructors of the standard library never return nil
+					switch calleeName(&c.Call) {
+					case "errors.New", "fmt.Errorf":
+						isNil, decided = false, true
+					}
+				}
+				if decided && isNil != kn.val {
+					compatible = false
+				}
+			} else {
+				if b, isC := constBool(rv); isC && b != kn.val {
+					compatible = false
+				} else if !isC {
+					if p.Has(!kn.val, func(v ssa.Value, _ string) bool { return v == rv }) {
+						compatible = false
+					}
+				}
+			}
+		}
+		if !compatible {
+			continue
+		}
+		n++
+		res := unwrap(p.Resolve(ret.Results[i]))
+		if okn, _ := c16NonNil(r, res, 0); okn {
+			continue
+		}
+		if p.Has(false, func(v ssa.Value, _ string) bool {
+			return isNilCompareOf(v, func(x ssa.Value) bool { return unwrap(x) == res })
+		}) {
+			continue
+		}
+		// the pointer is itself the result of a repository function whose sibling results this path checked
+		if ex, isEx := res.(*ssa.Extract); isEx && depth < 3 {
+			if c2, isCall := ex.Tuple.(*ssa.Call); isCall {
+				if callee2 := staticCallee(&c2.Call); callee2 != nil && r.Prog.IsRepoFunc(callee2) && len(callee2.Blocks) > 0 {
+					var known2 []c16SiblingKnown
+					for _, rf := range refs(c2) {
+						ex2, ok := rf.(*ssa.Extract)
+						if !ok || ex2.Index == ex.Index {
+							continue
+						}
+						for _, f := range p.Facts {
+							if c17IsErrType(ex2.Type()) && isNilCompareOf(f.V, func(x ssa.Value) bool { return unwrap(x) == ssa.Value(ex2) }) {
+								known2 = append(known2, c16SiblingKnown{ex2.Index, true, f.Pol})
+							}
+							if f.V == ssa.Value(ex2) {
+								known2 = append(known2, c16SiblingKnown{ex2.Index, false, f.Pol})
+							}
+						}
+					}
+					if ok2, _ := c16CalleeYieldsNonNilD(r, callee2, ex.Index, known2, depth+1); ok2 {
+						continue
+					}
+				}
+			}
+		}
+		// a nil fall-through that the exhaustive role dispatch makes infeasible (R5)
+		if c, isC := res.(*ssa.Const); isC && c.IsNil() {
+			if okd, _ := c16DispatchExhaustive(r, fn); okd {
+				continue
+			}
+		}
+		var ks []string
+		for _, kn := range known {
+			if kn.isErr {
+				ks = append(ks, fmt.Sprintf("error result #%d nil=%v", kn.idx, kn.val))
+			} else {
+				ks = append(ks, fmt.Sprintf("bool result #%d = %v", kn.idx, kn.val))
+			}
+		}
+		sort.Strings(ks)
+		under := "without checking the sibling results"
+		if len(ks) > 0 {
+			under = "having established " + strings.Join(ks, ", ")
+		}
+		return false, fmt.Sprintf("%s can return a nil pointer at %s on the path [%s], and the caller dereferences it %s", shortFunc(fn), r.Prog.Pos(instrPos(ret)), shortFacts(p), under)
+	}
+	return true, fmt.Sprintf("non-nil on the %d compatible return path(s) of %s", n, shortFunc(fn))
+}
+
+// c16DirectGuards: the block reached by the non-nil edge of `p != nil` that dereferences p must
+// have p != nil as a must-fact (it has, unless another edge enters the block).
+func c16DirectGuards(r *Run, reach map[*ssa.Function]bool) {
+	for _, fn := range sortedFuncs(reach) {
+		if !r.Prog.IsRuleSite(fn) {
+			continue
+		}
+		var ff *FuncFacts
+		n := 0
+		for _, b := range fn.Blocks {
+			if len(b.Instrs) == 0 || len(b.Succs) != 2 {
+				continue
+			}
+			iff, ok := b.Instrs[len(b.Instrs)-1].(*ssa.If)
+			if !ok {
+				continue
+			}
+			cond, pol := iff.Cond, true
+			for {
+				if u, ok := cond.(*ssa.UnOp); ok && u.Op == token.NOT {
+					cond, pol = u.X, !pol
+					continue
+				}
+				break
+			}
+			bo, ok := cond.(*ssa.BinOp)
+			if !ok || (bo.Op != token.EQL && bo.Op != token.NEQ) {
+				continue
+			}
+			v := bo.X
+			if isNilConst(v) {
+				v = bo.Y
+			} else if !isNilConst(bo.Y) {
+				continue
+			}
+			if !c16IsPlainPtr(v.Type()) {
+				continue
+			}
+			// successor taken when v != nil
+			nonNilOnTrue := (bo.Op == token.NEQ) == pol
+			t := b.Succs[1]
+			if nonNilOnTrue {
+				t = b.Succs[0]
+			}
+			if len(t.Preds) < 2 {
+				continue // only this edge enters: the fact holds by construction
+			}
+			if ff == nil {
+				ff = r.Prog.factsOf(fn)
+			}
+			kv := ff.K.key(v)
+			// the very value that was tested, or another load of the same memory that nothing in the function writes
+			stable := !c16StoredIn(fn, v)
+			same := func(x ssa.Value) bool {
+				return x == v || (stable && ff.K.key(x) == kv)
+			}
+			var deref ssa.Instruction
+			how := ""
+			for _, in := range t.Instrs {
+				switch x := in.(type) {
+				case *ssa.FieldAddr:
+					if same(x.X) {
+						deref, how = x, "field selection ."+fieldName(x)
+					}
+				case *ssa.UnOp:
+					if x.Op == token.MUL && same(x.X) {
+						deref, how = x, "load"
+					}
+				case ssa.CallInstruction:
+					if callee := staticCallee(x.Common()); callee != nil {
+						for k, a := range x.Common().Args {
+							if same(a) && c16IsPlainPtr(a.Type()) && c16ParamDerefs(r, callee, k, 0) {
+								deref, how = x, "passed to "+shortFunc(callee)+", which dereferences it"
+							}
+						}
+					}
+				}
+				if deref != nil {
+					break
+				}
+			}
+			if deref == nil {
+				continue
+			}
+			n++
+			guarded := ff.At(t).has("("+kv+"==nil)", false) || ff.At(t).has("(nil=="+kv+")", false)
+			r.Check("C16.R8", fmt.Sprintf("guarded dereference #%d of %s", n, c16StableKey(kv)), r.Prog.Pos(instrPos(deref)), shortFunc(fn),
+				"a dereference placed directly behind a nil test of the same pointer is reached only when the pointer is non-nil", guarded,
+				how+": the block is also entered by an edge on which the pointer was not tested (the guard is part of a disjunction or was negated)")
+		}
 	}
 }
